@@ -14,7 +14,8 @@
 // Output per case:  "== <id>", then for read:  "result=<ReadResult> state=<ReadState|->" [+ mesh block when Ok] [+ "!O ..." oracle lines]
 //                                   for write: "wresult=<WriteResult>", the observed mesh block with properties in WRITER order
 //                                              ("W ..." lines), "bytes <hex>", "rt=<ok|...>" [+ "!O ..." lines]
-// A case runs in a forked child (alarm 2 s): a crash / sanitizer abort / timeout is reported as "!! CRASH" / "!! TIMEOUT".
+// Cases run in a forked worker (alarm 2 s per case): a crash / sanitizer abort / timeout is reported as "!! CRASH" / "!! TIMEOUT"
+// for that case only and a fresh worker continues with the next case.
 #include "probe.hh"
 #include "kernel_exec.hh"
 #include "faultstream.hh"
@@ -117,19 +118,20 @@ static bool dump_prop(PropertyStorageBase *p, PropDump &d) {
     return false;
 }
 
-template <class M, class Tag> static void collect_props(M &m, int ent, std::vector<PropDump> &out) {
+template <class M, class Tag> static void collect_props(M &m, int ent, std::vector<PropDump> &out, bool values = true) {
     for (auto it = m.template persistent_props_begin<Tag>(); it != m.template persistent_props_end<Tag>(); ++it) {
         PropDump d; d.ent = ent;
         PropertyStorageBase *sp = *it;
-        if (!dump_prop(sp, d)) { d.type = "?"; d.name = sp->name(); d.size = sp->size(); }
+        if (!values) { d.type = "-"; d.name = sp->name(); d.size = sp->size(); }
+        else if (!dump_prop(sp, d)) { d.type = "?"; d.name = sp->name(); d.size = sp->size(); }
         out.push_back(std::move(d));
     }
 }
-template <class M> static std::vector<PropDump> all_props(M &m) {
+template <class M> static std::vector<PropDump> all_props(M &m, bool values = true) {
     std::vector<PropDump> v;
-    collect_props<M, Entity::Vertex>(m, 0, v); collect_props<M, Entity::Edge>(m, 1, v); collect_props<M, Entity::HalfEdge>(m, 2, v);
-    collect_props<M, Entity::Face>(m, 3, v); collect_props<M, Entity::HalfFace>(m, 4, v); collect_props<M, Entity::Cell>(m, 5, v);
-    collect_props<M, Entity::Mesh>(m, 6, v);
+    collect_props<M, Entity::Vertex>(m, 0, v, values); collect_props<M, Entity::Edge>(m, 1, v, values); collect_props<M, Entity::HalfEdge>(m, 2, v, values);
+    collect_props<M, Entity::Face>(m, 3, v, values); collect_props<M, Entity::HalfFace>(m, 4, v, values); collect_props<M, Entity::Cell>(m, 5, v, values);
+    collect_props<M, Entity::Mesh>(m, 6, v, values);
     return v;
 }
 
@@ -170,7 +172,7 @@ template <class M> static std::string mesh_valid(M &m) {
     for (size_t i = 0; i < nf; ++i) for (auto h : m.face(FaceHandle((int)i)).halfedges()) if (h.idx() < 0 || (size_t)h.idx() >= 2 * ne) return "face " + std::to_string(i) + " stores a halfedge handle out of range";
     for (size_t i = 0; i < m.n_cells(); ++i) for (auto h : m.cell(CellHandle((int)i)).halffaces()) if (h.idx() < 0 || (size_t)h.idx() >= 2 * nf) return "cell " + std::to_string(i) + " stores a halfface handle out of range";
     if (m.vertex_positions().size() != nv) return "position property has " + std::to_string(m.vertex_positions().size()) + " elements for " + std::to_string(nv) + " vertices";
-    for (auto &d : all_props(m)) if (d.size != ent_count(m, d.ent)) return std::string("property ") + ENT_NAMES[d.ent] + "/" + to_hex(d.name) + " has " + std::to_string(d.size) + " elements for " + std::to_string(ent_count(m, d.ent)) + " entities";
+    for (auto &d : all_props(m, false)) if (d.size != ent_count(m, d.ent)) return std::string("property ") + ENT_NAMES[d.ent] + "/" + to_hex(d.name) + " has " + std::to_string(d.size) + " elements for " + std::to_string(ent_count(m, d.ent)) + " entities";
     return "";
 }
 
@@ -184,6 +186,7 @@ struct Case {
 };
 
 static const char *nm(const char *s) { return s ? s : "?"; }
+static bool g_nomesh = false;   // --nomesh: result + oracles only (files declaring millions of entities)
 
 template <class M> static void do_read(const Case &c, std::ostream &o, const std::string &scratch) {
     M mesh;
@@ -206,7 +209,7 @@ template <class M> static void do_read(const Case &c, std::ostream &o, const std
     }
     o << "result=" << nm(IO::to_string(res)) << " state=" << state << "\n";
     if (res == IO::ReadResult::Ok) {
-        mesh_block(mesh, o, false);
+        if (!g_nomesh) mesh_block(mesh, o, false);
         std::string bad = mesh_valid(mesh);
         if (!bad.empty()) o << "!O mesh_valid " << bad << "\n";
         if (c.bu && !(mesh.has_vertex_bottom_up_incidences() && mesh.has_edge_bottom_up_incidences() && mesh.has_face_bottom_up_incidences())) o << "!O bottom_up requested but not enabled\n";
@@ -311,37 +314,58 @@ static void run_case(const Case &c, std::ostream &o, const std::string &scratch)
     }
 }
 
-static void run_forked(const Case &c, const std::string &scratch, bool nofork, bool verbose) {
-    std::cout << "== " << c.id << "\n";
-    if (nofork) { std::ostringstream o; run_case(c, o, scratch); std::cout << o.str(); std::cout.flush(); return; }
-    std::cout.flush();
+// A worker child runs the cases from `from` on, one after the other (alarm 2 s per case), framing each case's output with
+// begin/done markers on a pipe.  If the worker dies (crash, sanitizer abort, alarm) the case in flight is reported as
+// "!! CRASH" / "!! TIMEOUT" and a new worker continues with the next case: a failure is confined to its case.
+static size_t run_worker(const std::vector<Case> &cases, size_t from, const std::string &scratch, bool verbose) {
     int fd[2];
     if (pipe(fd) != 0) { perror("pipe"); exit(3); }
+    std::cout.flush();
     pid_t pid = fork();
     if (pid == 0) {
         close(fd[0]);
         if (!verbose) { int dn = open("/dev/null", O_WRONLY); if (dn >= 0) { dup2(dn, 2); } }
-        alarm(2);
-        std::ostringstream o;
-        run_case(c, o, scratch);
-        o << "<<done>>\n";
-        std::string s = o.str();
-        size_t off = 0;
-        while (off < s.size()) { ssize_t k = write(fd[1], s.data() + off, s.size() - off); if (k <= 0) break; off += (size_t)k; }
+        auto put = [&](const std::string &s) { size_t off = 0; while (off < s.size()) { ssize_t k = write(fd[1], s.data() + off, s.size() - off); if (k <= 0) _exit(4); off += (size_t)k; } };
+        for (size_t i = from; i < cases.size(); ++i) {
+            put("<<begin " + std::to_string(i) + ">>\n");
+            alarm(2);
+            std::ostringstream o;
+            run_case(cases[i], o, scratch);
+            alarm(0);
+            put(o.str());
+            put("<<done " + std::to_string(i) + ">>\n");
+        }
         close(fd[1]);
         _exit(0);
     }
     close(fd[1]);
-    std::string out; char buf[65536]; ssize_t k;
-    while ((k = read(fd[0], buf, sizeof buf)) > 0) out.append(buf, (size_t)k);
+    std::string pending; char buf[65536]; ssize_t k;
+    long in_flight = -1; size_t next = from; std::string cur;
+    auto process_lines = [&]() {
+        size_t pos;
+        while ((pos = pending.find('\n')) != std::string::npos) {
+            std::string line = pending.substr(0, pos); pending.erase(0, pos + 1);
+            if (line.rfind("<<begin ", 0) == 0) { in_flight = std::stol(line.substr(8)); cur.clear(); }
+            else if (line.rfind("<<done ", 0) == 0) {
+                std::cout << "== " << cases[(size_t)in_flight].id << "\n" << cur; std::cout.flush();
+                next = (size_t)in_flight + 1; in_flight = -1; cur.clear();
+            } else cur += line + "\n";
+        }
+    };
+    while ((k = read(fd[0], buf, sizeof buf)) > 0) { pending.append(buf, (size_t)k); process_lines(); }
     close(fd[0]);
     int st = 0; waitpid(pid, &st, 0);
-    const std::string done = "<<done>>\n";
-    bool complete = out.size() >= done.size() && out.compare(out.size() - done.size(), done.size(), done) == 0;
-    if (WIFSIGNALED(st) && WTERMSIG(st) == SIGALRM) std::cout << "!! TIMEOUT\n";
-    else if (!complete || !WIFEXITED(st) || WEXITSTATUS(st) != 0) std::cout << "!! CRASH\n";
-    else std::cout << out.substr(0, out.size() - done.size());
-    std::cout.flush();
+    if (in_flight >= 0) {
+        std::cout << "== " << cases[(size_t)in_flight].id << "\n";
+        if (WIFSIGNALED(st) && WTERMSIG(st) == SIGALRM) std::cout << "!! TIMEOUT\n"; else std::cout << "!! CRASH\n";
+        std::cout.flush();
+        next = (size_t)in_flight + 1;
+    } else if (!(WIFEXITED(st) && WEXITSTATUS(st) == 0) && next < cases.size()) {
+        // died between two cases: attribute it to the next one
+        std::cout << "== " << cases[next].id << "\n!! CRASH\n"; std::cout.flush();
+        next += 1;
+    }
+    return next;
 }
 
 int main(int argc, char **argv) {
@@ -352,6 +376,7 @@ int main(int argc, char **argv) {
         std::string a = argv[i];
         if (a == "--nofork") nofork = true;
         else if (a == "--verbose") verbose = true;
+        else if (a == "--nomesh") g_nomesh = true;
         else if (a == "--scratch" && i + 1 < argc) scratch = argv[++i];
         else file = argv[i];
     }
@@ -359,7 +384,7 @@ int main(int argc, char **argv) {
     if (file) { fin.open(file); if (!fin) { fprintf(stderr, "cannot open %s\n", file); return 3; } }
     std::istream &in = file ? static_cast<std::istream &>(fin) : std::cin;
     std::string line;
-    Case cur; bool open = false;
+    Case cur; bool open = false; std::vector<Case> all;
     while (std::getline(in, line)) {
         if (line.empty() || line[0] == '#') continue;
         auto t = split_ws(line);
@@ -380,7 +405,10 @@ int main(int argc, char **argv) {
         else if (t[0] == "rawF" || t[0] == "rawC") { cur.klines.push_back(line); }
         else if (t[0] == "pos") { if (t.size() >= 5) cur.pos.push_back(t); }
         else if (t[0] == "prop") { if (t.size() >= 5) cur.props.push_back(t); }
-        else if (t[0] == "end") { run_forked(cur, scratch, nofork, verbose); open = false; }
+        else if (t[0] == "end") { all.push_back(cur); open = false; }
     }
+    if (nofork) { for (auto &c : all) { std::cout << "== " << c.id << "\n"; std::ostringstream o; run_case(c, o, scratch); std::cout << o.str(); std::cout.flush(); } return 0; }
+    size_t i = 0;
+    while (i < all.size()) i = run_worker(all, i, scratch, verbose);
     return 0;
 }
